@@ -78,13 +78,38 @@ func NewCronTriggerWithLoc(expression string, location *time.Location) (*CronTri
 // NextFireTime returns the next time at which the CronTrigger is scheduled to fire.
 func (ct *CronTrigger) NextFireTime(prev int64) (int64, error) {
 	prevTime := time.Unix(prev/int64(time.Second), 0).In(ct.location)
-	// build a CronStateMachine and run once
-	csm := newCSMFromFields(prevTime, ct.fields)
-	nextDateTime, ok := csm.NextTriggerTime(prevTime.Location())
-	if !ok || nextDateTime.Before(prevTime) || nextDateTime.Equal(prevTime) {
-		return 0, ErrTriggerExpired
+	_, prevOffset := prevTime.Zone()
+	// wall holds the wall clock reading to search from
+	wall := prevTime
+	for {
+		// build a CronStateMachine and run once
+		csm := newCSMFromFields(wall, ct.fields)
+		// the next matching wall clock reading, expressed as a UTC time
+		nextWall, ok := csm.NextTriggerTime(time.UTC)
+		if !ok {
+			return 0, ErrTriggerExpired
+		}
+		next := time.Date(nextWall.Year(), nextWall.Month(), nextWall.Day(),
+			nextWall.Hour(), nextWall.Minute(), nextWall.Second(), 0, ct.location)
+		if !ct.fires(next, nextWall, prevTime) {
+			// a reading repeated after the clocks were moved back: try the
+			// offset that is in force at prev
+			next = time.Unix(nextWall.Unix()-int64(prevOffset), 0).In(ct.location)
+		}
+		if ct.fires(next, nextWall, prevTime) {
+			return next.UnixNano(), nil
+		}
+		// The reading does not exist in this location (the clocks were moved
+		// forward over it) or its instant is not after prev: search on from it.
+		wall = nextWall
 	}
-	return nextDateTime.UnixNano(), nil
+}
+
+// fires reports whether the instant next shows the wall clock reading wall
+// and lies after prev.
+func (ct *CronTrigger) fires(next, wall, prev time.Time) bool {
+	_, offset := next.Zone()
+	return next.Unix()+int64(offset) == wall.Unix() && next.After(prev)
 }
 
 // Description returns the description of the cron trigger.
